@@ -55,7 +55,7 @@ func NewCountProfile() (p *CountProfile) {
 // CountsAt returns the counts for all sites, for the ith character
 // (arbitrary order of character)
 func (p *CountProfile) CountsAt(i int) (counts []int, err error) {
-	if i > len(p.counts) || i < 0 {
+	if i >= len(p.counts) || i < 0 {
 		err = fmt.Errorf("no counts for character at index %d", i)
 		return
 	}
